@@ -33,3 +33,24 @@ pub fn all() -> Vec<&'static dyn Property> {
 pub fn find(id: &str) -> Option<&'static dyn Property> {
     all().into_iter().find(|p| p.id().eq_ignore_ascii_case(id))
 }
+
+/// Evaluate the bytes of a libFuzzer input for `target` in-process (strict; no tolerance).
+/// Returns None for an unknown target or undecodable input.
+pub fn fuzz_eval(target: &str, data: &[u8]) -> Option<crate::engine::CaseResult> {
+    match target {
+        "c14_reader" => {
+            let case = c14::case_from_bytes(data).ok()?;
+            Some(crate::engine::fuzz::eval_case(|rec| c14::check_case(&case, rec)))
+        }
+        _ => None,
+    }
+}
+
+pub fn fuzz_target_property(target: &str) -> Option<&'static str> {
+    match target {
+        "c14_reader" => Some("C14"),
+        "c01_bytes" | "c01_ops" => Some("C01"),
+        "c02_shape" => Some("C02"),
+        _ => None,
+    }
+}
